@@ -17,6 +17,60 @@ def replay (S : Schema) : Node → List Step → Option (List Node × Node)
     | .ok d' => (replay S d' rest).map (fun (ds, fin) => (d :: ds, fin))
     | .error _ => none
 
+private theorem replay_snoc (S : Schema) (st : Step) (d' : Node) :
+    ∀ (xs : List Step) (d : Node) (ds : List Node) (fin : Node),
+      replay S d xs = some (ds, fin) → S.apply st fin = .ok d' →
+      replay S d (xs ++ [st]) = some (ds ++ [fin], d')
+  | [], d, ds, fin, h, ha => by
+    simp only [replay, Option.some.injEq, Prod.mk.injEq] at h
+    obtain ⟨rfl, rfl⟩ := h
+    simp [replay, ha]
+  | x :: xs, d, ds, fin, h, ha => by
+    simp only [replay, List.cons_append] at h ⊢
+    cases hx : S.apply x d with
+    | error e => simp [hx] at h
+    | ok d1 =>
+      simp only [hx] at h ⊢
+      cases hr : replay S d1 xs with
+      | none => simp [hr] at h
+      | some p =>
+        obtain ⟨ds1, fin1⟩ := p
+        simp only [hr, Option.map_some, Option.some.injEq, Prod.mk.injEq] at h
+        obtain ⟨rfl, rfl⟩ := h
+        rw [replay_snoc S st d' xs d1 ds1 fin1 hr ha]
+        simp
+
+/-- the bookkeeping invariant of a transform -/
+private def HInv (S : Schema) (tr : Tr) : Prop :=
+  tr.steps.length = tr.docs.length ∧ tr.maps = tr.steps.map Step.getMap ∧
+  replay S tr.before tr.steps = some (tr.docs, tr.doc)
+
+private theorem HInv_maybeStep (S : Schema) (tr : Tr) (st : Step) (h : HInv S tr) :
+    HInv S (tr.maybeStep S st) ∧ (tr.maybeStep S st).before = tr.before := by
+  unfold Tr.maybeStep
+  cases ha : S.apply st tr.doc with
+  | error e => exact ⟨h, rfl⟩
+  | ok d =>
+    obtain ⟨h1, h2, h3⟩ := h
+    have hb : (tr.addStep st d).before = tr.before := by
+      simp only [Tr.before, Tr.addStep]
+      cases hd : tr.docs with
+      | nil => simp
+      | cons x xs => simp
+    refine ⟨⟨?_, ?_, ?_⟩, hb⟩
+    · simp [Tr.addStep, h1]
+    · simp [Tr.addStep, h2]
+    · rw [hb]
+      exact replay_snoc S st d tr.steps tr.before tr.docs tr.doc h3 ha
+
+private theorem HInv_run (S : Schema) : ∀ (sts : List Step) (tr : Tr), HInv S tr →
+    HInv S (tr.run S sts) ∧ (tr.run S sts).before = tr.before
+  | [], tr, h => ⟨h, rfl⟩
+  | st :: sts, tr, h => by
+    have h1 := HInv_maybeStep S tr st h
+    have h2 := HInv_run S sts (tr.maybeStep S st) h1.1
+    exact ⟨h2.1, h2.2.trans h1.2⟩
+
 /-- **history bookkeeping**: for any finite sequence of attempted steps, the recorded steps, documents
     and maps stay aligned one-to-one (also after rejected steps), every recorded map is the recorded
     step's map, and re-applying the recorded steps to the starting document reproduces the recorded
@@ -27,26 +81,58 @@ theorem history_inv (S : Schema) (doc : Node) (sts : List Step) :
     tr.maps = tr.steps.map Step.getMap ∧
     tr.before = doc ∧
     replay S doc tr.steps = some (tr.docs, tr.doc) := by
-  sorry
+  intro tr
+  have h0 : HInv S (Tr.init doc) := ⟨rfl, rfl, rfl⟩
+  obtain ⟨⟨h1, h2, h3⟩, hb⟩ := HInv_run S sts (Tr.init doc) h0
+  have hb' : tr.before = doc := hb
+  refine ⟨h1, ?_, h2, hb', ?_⟩
+  · have := congrArg List.length h2
+    simpa using this
+  · rw [← hb']; exact h3
 
 /-- a rejected step leaves the whole transform unchanged -/
 theorem rejected_unchanged (S : Schema) (tr : Tr) (st : Step) (e : Err) (h : S.apply st tr.doc = .error e) :
     tr.maybeStep S st = tr := by
-  sorry
+  simp [Tr.maybeStep, h]
 
 /-- **an inverted replace step's map is the inverse of the original's** (position by position) -/
 theorem invert_map_replace (S : Schema) (doc : Node) (f t : Nat) (sl : Slice) (b : Bool) (inv : Step)
     (hft : f ≤ t) (ht : t ≤ fsize doc.kids) (hs : 0 ≤ sl.size)
     (hi : S.invert (.replace f t sl b) doc = .ok inv) (p a : Int) :
     inv.getMap.map p a = (Step.replace f t sl b).getMap.invert.map p a := by
-  sorry
+  simp only [Schema.invert] at hi
+  cases hsl : doc.slice f t with
+  | error e => simp [hsl] at hi
+  | ok old =>
+    simp only [hsl, Except.ok.injEq] at hi
+    subst hi
+    have hsz := sliceKids_size doc.kids f t old hft ht hsl
+    simp only [Step.getMap, StepMap.map, StepMap.mapResult, StepMap.invert, Bool.not_false]
+    rw [hsz, ← mapAux_single_inv]
+    have : ((f + sl.size.toNat : Nat) : Int) - (f : Int) = sl.size := by omega
+    rw [this]
 
 theorem invert_map_replaceAround (S : Schema) (doc : Node) (f t gf gt : Nat) (sl : Slice) (ins : Nat)
     (b : Bool) (inv : Step) (hg : f ≤ gf ∧ gf ≤ gt ∧ gt ≤ t) (ht : t ≤ fsize doc.kids)
     (hins : (ins : Int) ≤ sl.size)
     (hi : S.invert (.replaceAround f t gf gt sl ins b) doc = .ok inv) (p a : Int) :
     inv.getMap.map p a = (Step.replaceAround f t gf gt sl ins b).getMap.invert.map p a := by
-  sorry
+  simp only [Schema.invert] at hi
+  cases hsl : doc.slice f t with
+  | error e => simp [hsl] at hi
+  | ok old =>
+    simp only [hsl] at hi
+    cases hrm : old.removeBetween (gf - f) (gt - f) with
+    | error e => simp [hrm] at hi
+    | ok rem =>
+      simp only [hrm, Except.ok.injEq] at hi
+      subst hi
+      have hsz := sliceKids_size doc.kids f t old (by omega) ht hsl
+      obtain ⟨hrs, _, _, _⟩ := removeBetween_size old rem (gf - f) (gt - f) (by omega) hrm
+      simp only [Step.getMap, StepMap.map, StepMap.mapResult, StepMap.invert, Bool.not_false]
+      rw [mapAux_pair_inv (s2' := (gt : Int))]
+      · congr 4 <;> first | omega | (simp only [Prod.mk.injEq, true_and]; refine ⟨?_, ?_⟩ <;> omega)
+      · omega
 
 /-- **exact undo of a replace step** (whenever the inverse applies — that it does is decided by the
     correspondence run): the restored document is *equal* to the original -/
@@ -55,7 +141,31 @@ theorem replace_undo_partial (S : Schema) (doc doc' doc'' : Node) (f t : Nat) (s
     (h1 : S.apply (.replace f t sl b) doc = .ok doc')
     (hi : S.invert (.replace f t sl b) doc = .ok inv)
     (h2 : S.apply inv doc' = .ok doc'') : doc'' = doc := by
-  sorry
+  obtain ⟨ty, a, m, K, K', rfl, rfl, hr1⟩ :=
+    fromReplace_elem S doc doc' f t sl (apply_replace_fromReplace S doc doc' f t sl b h1)
+  simp only [Node.kids] at hn
+  obtain ⟨hft, ht, hwf⟩ := replaceKids_guards S ty K f t sl K' hr1
+  simp only [Schema.invert] at hi
+  cases hsl : (Node.elem ty a m K).slice f t with
+  | error e => simp [hsl] at hi
+  | ok old =>
+    simp only [hsl, Except.ok.injEq] at hi
+    subst hi
+    have hsl' : sliceKids K f t = .ok old := hsl
+    obtain ⟨ty', a', m', K0, K'', he, rfl, hr2⟩ :=
+      fromReplace_elem S _ doc'' f _ old (apply_replace_fromReplace S _ doc'' f _ old false h2)
+    cases he
+    have hon := sliceKids_norm K f t old hn hsl'
+    have hn' := replaceKids_norm S ty K f t sl K' hn hsn hr1
+    have hn'' := replaceKids_norm S ty K' f _ old K'' hn' hon.1 hr2
+    have ht1 := replaceKids_toks S ty K f t sl K' hr1
+    have ht2 := replaceKids_toks S ty K' f _ old K'' hr2
+    have hot := sliceKids_toks K f t old hft ht hsl'
+    have hlen := (Slice.toks_length_of_wf hwf).1
+    have : ftoks K'' = ftoks K := by
+      rw [ht2, ht1, hot, ← hlen]
+      exact splice_undo (ftoks K) sl.toks f t hft (by rw [ftoks_length]; exact ht)
+    rw [ftoks_inj K'' K hn'' hn this]
 
 /-- **exact undo of a replace-around step** (same proviso) -/
 theorem replaceAround_undo_partial (S : Schema) (doc doc' doc'' : Node) (f t gf gt : Nat) (sl : Slice)
@@ -64,7 +174,88 @@ theorem replaceAround_undo_partial (S : Schema) (doc doc' doc'' : Node) (f t gf 
     (h1 : S.apply (.replaceAround f t gf gt sl ins b) doc = .ok doc')
     (hi : S.invert (.replaceAround f t gf gt sl ins b) doc = .ok inv)
     (h2 : S.apply inv doc' = .ok doc'') : doc'' = doc := by
-  sorry
+  obtain ⟨gap, inserted, hgap, hgo1, hgo2, hinst, hfr1⟩ :=
+    apply_replaceAround_parts S doc doc' f t gf gt sl ins b h1
+  obtain ⟨hK', htK, _⟩ := apply_replaceAround_toks S doc doc' f t gf gt sl ins b hwf hins hg h1
+  obtain ⟨ty, a, m, K, K', rfl, rfl, hr1⟩ := fromReplace_elem S doc doc' f t inserted hfr1
+  simp only [Node.kids] at hn hK' htK
+  have hgap' : sliceKids K gf gt = .ok gap := hgap
+  -- normal forms after the step
+  have hgn := sliceKids_norm K gf gt gap hn hgap'
+  have hin := insertAt_norm S sl inserted ins gap.content hsn hgn.1 hinst
+  have hn' := replaceKids_norm S ty K f t inserted K' hn hin hr1
+  -- the inverse
+  simp only [Schema.invert] at hi
+  cases hsl : (Node.elem ty a m K).slice f t with
+  | error e => simp [hsl] at hi
+  | ok old =>
+    simp only [hsl] at hi
+    cases hrm : old.removeBetween (gf - f) (gt - f) with
+    | error e => simp [hrm] at hi
+    | ok rem =>
+      simp only [hrm, Except.ok.injEq] at hi
+      subst hi
+      have hsl' : sliceKids K f t = .ok old := hsl
+      obtain ⟨gap2, inserted2, hgap2, hg2o1, hg2o2, hinst2, hfr2⟩ :=
+        apply_replaceAround_parts S _ doc'' _ _ _ _ _ _ _ h2
+      obtain ⟨ty', a', m', K0, K'', he, rfl, hr2⟩ := fromReplace_elem S _ doc'' _ _ inserted2 hfr2
+      cases he
+      have hgap2' : sliceKids K' (f + ins) (f + ins + (gt - gf)) = .ok gap2 := hgap2
+      -- normal forms after the inverse
+      have hon := sliceKids_norm K f t old hn hsl'
+      have hrn := removeBetween_norm old rem _ _ hon.1 hrm
+      have hgn2 := sliceKids_norm K' _ _ gap2 hn' hgap2'
+      have hin2 := insertAt_norm S rem inserted2 _ gap2.content hrn hgn2.1 hinst2
+      have hn'' := replaceKids_norm S ty K' f _ inserted2 K'' hn' hin2 hr2
+      -- sizes
+      have hosz := sliceKids_size K f t old (by omega) htK hsl'
+      obtain ⟨hrsz, _, _, _⟩ := removeBetween_size old rem (gf - f) (gt - f) (by omega) hrm
+      obtain ⟨hTlen, hT0⟩ := Slice.toks_length_of_wf hwf
+      -- tokens: decompose the original sequence
+      obtain ⟨A, P, G, Q, D, hK, hA, hP, hG, hQ⟩ := split5 (ftoks K) f gf gt t hg.1 hg.2.1 hg.2.2
+        (by rw [ftoks_length]; exact htK)
+      have eA : (ftoks K).take f = A := by
+        rw [hK, show A ++ P ++ G ++ Q ++ D = A ++ (P ++ G ++ Q ++ D) by simp]
+        exact win_take _ _ _ hA
+      have eG : ((ftoks K).drop gf).take (gt - gf) = G := by
+        rw [hK, show A ++ P ++ G ++ Q ++ D = (A ++ P) ++ G ++ (Q ++ D) by simp]
+        exact win_mid _ _ _ _ _ (by simp; omega) hG
+      have eD : (ftoks K).drop t = D := by
+        rw [hK]
+        exact win_drop _ _ _ (by simp; omega)
+      have eO : old.toks = P ++ G ++ Q := by
+        rw [sliceKids_toks K f t old (by omega) htK hsl', hK,
+          show A ++ P ++ G ++ Q ++ D = A ++ (P ++ G ++ Q) ++ D by simp]
+        exact win_mid _ _ _ _ _ hA (by simp; omega)
+      have eR : rem.toks = P ++ Q := by
+        rw [(removeBetween_toks old rem (gf - f) (gt - f) hon.2 (by omega) (by omega) hrm).1, eO]
+        rw [show P ++ G ++ Q = P ++ (G ++ Q) by simp, win_take _ _ _ hP,
+          show P ++ (G ++ Q) = (P ++ G) ++ Q by simp, win_drop _ _ _ (by simp; omega)]
+      have hBl : (sl.toks.take ins).length = ins := by simp; omega
+      have hCl : (sl.toks.drop ins).length = sl.size.toNat - ins := by simp; omega
+      rw [eA, eG, eD] at hK'
+      have eG2 : ftoks gap2.content = G := by
+        have : gap2 = ⟨gap2.content, 0, 0⟩ := by
+          cases gap2; simp at hg2o1 hg2o2; simp [hg2o1, hg2o2]
+        rw [← Slice.toks_closed, ← this,
+          sliceKids_toks K' _ _ gap2 (by omega)
+            (by rw [← ftoks_length, hK']; simp; omega) hgap2', hK',
+          show f + ins + (gt - gf) - (f + ins) = gt - gf by omega,
+          show A ++ sl.toks.take ins ++ G ++ sl.toks.drop ins ++ D
+            = (A ++ sl.toks.take ins) ++ G ++ (sl.toks.drop ins ++ D) by simp]
+        exact win_mid _ _ _ _ _ (by simp; omega) hG
+      have eI : inserted2.toks = P ++ G ++ Q := by
+        rw [insertAt_toks' S rem inserted2 (gf - f) gap2.content (by omega) hinst2, eR, eG2,
+          win_take _ _ _ hP, win_drop _ _ _ hP]
+      have : ftoks K'' = ftoks K := by
+        rw [replaceKids_toks S ty K' f _ inserted2 K'' hr2, eI, hK, hK']
+        rw [show A ++ sl.toks.take ins ++ G ++ sl.toks.drop ins ++ D
+            = A ++ (sl.toks.take ins ++ G ++ sl.toks.drop ins ++ D) by simp, win_take _ _ _ hA,
+          show A ++ (sl.toks.take ins ++ G ++ sl.toks.drop ins ++ D)
+            = (A ++ sl.toks.take ins ++ G ++ sl.toks.drop ins) ++ D by simp,
+          win_drop _ _ _ (by simp; omega)]
+        simp
+      rw [ftoks_inj K'' K hn'' hn this]
 
 mutual
 /-- every node carries its attributes the way the library builds them (`compute_attrs` would return
@@ -82,6 +273,63 @@ def attrsOkKids (S : Schema) : List Node → Bool
   | n :: ns => attrsOk S n && attrsOkKids S ns
 end
 
+private theorem attrsOk_nodeAt (S : Schema) : ∀ (kids : List Node) (pos : Nat) (n : Node),
+    attrsOkKids S kids = true → nodeAtKids kids pos = .ok (some n) → attrsOk S n = true
+  | [], pos, n, _, h => by
+    unfold nodeAtKids at h
+    split at h <;> simp at h
+  | x :: xs, pos, n, hk, h => by
+    simp only [attrsOkKids, Bool.and_eq_true] at hk
+    unfold nodeAtKids at h
+    split at h
+    · simp at h; subst h; exact hk.1
+    · split at h
+      · exact attrsOk_nodeAt S xs _ n hk.2 h
+      · cases x with
+        | text s m => simp at h; subst h; exact hk.1
+        | leaf t a m => simp at h; subst h; exact hk.1
+        | elem t a m kids =>
+          have h1 := hk.1
+          simp only [attrsOk, Bool.and_eq_true] at h1
+          exact attrsOk_nodeAt S kids _ n h1.2 h
+
+private theorem attrsOk_kids {S : Schema} {doc : Node} (h : attrsOk S doc = true) :
+    attrsOkKids S doc.kids = true := by
+  cases doc with
+  | text s m => simp [Node.kids, attrsOkKids]
+  | leaf t a m => simp [Node.kids, attrsOkKids]
+  | elem t a m k =>
+    simp only [attrsOk, Bool.and_eq_true] at h
+    simpa [Node.kids] using h.2
+
+private theorem attrsOk_compute {S : Schema} {n : Node} (h : attrsOk S n = true)
+    (hnt : n.isText = false) :
+    computeAttrs (S.nodeType n.headTok.ty).attrs n.attrs = .ok n.attrs := by
+  cases n with
+  | text s m => simp [Node.isText] at hnt
+  | leaf t a m =>
+    simp only [attrsOk] at h
+    simp only [Node.headTok, Tok.ty, Node.attrs]
+    cases hc : computeAttrs (S.nodeType t).attrs a with
+    | error e => simp [hc] at h
+    | ok a' => simp [hc] at h; rw [h]
+  | elem t a m k =>
+    simp only [attrsOk, Bool.and_eq_true] at h
+    have h1 := h.1
+    simp only [Node.headTok, Tok.ty, Node.attrs]
+    cases hc : computeAttrs (S.nodeType t).attrs a with
+    | error e => simp [hc] at h1
+    | ok a' => simp [hc] at h1; rw [h1]
+
+/-- what the hypotheses on the document give for the addressed node -/
+private theorem node_facts (S : Schema) (doc n : Node) (pos : Nat)
+    (hv : S.checkNode doc = true) (ha : attrsOk S doc = true)
+    (hn1 : doc.nodeAt pos = .ok (some n)) (hnt : n.isText = false) :
+    canonicalMarks S n.marks = true ∧
+      computeAttrs (S.nodeType n.headTok.ty).attrs n.attrs = .ok n.attrs :=
+  ⟨Node.marks_canonical (nodeAtKids_valid S doc.kids pos n (checkNode_kids hv) hn1),
+    attrsOk_compute (attrsOk_nodeAt S doc.kids pos n (attrsOk_kids ha) hn1) hnt⟩
+
 /-- **exact undo of an attribute step naming an attribute the node declares** (same proviso as for
     replace steps: whenever the inverse applies) -/
 theorem attr_undo_partial (S : Schema) (doc doc' doc'' : Node) (pos : Nat) (name value : String) (inv : Step)
@@ -89,17 +337,135 @@ theorem attr_undo_partial (S : Schema) (doc doc' doc'' : Node) (pos : Nat) (name
     (h1 : S.apply (.attr pos name value) doc = .ok doc')
     (hi : S.invert (.attr pos name value) doc = .ok inv)
     (h2 : S.apply inv doc' = .ok doc'') : doc'' = doc := by
-  sorry
+  obtain ⟨n, u1, hn1, hu1, hr1⟩ := apply_attr_parts S doc doc' pos name value h1
+  have hnt := (recreate_spec S n u1 _ _ hu1).1
+  obtain ⟨hcan, hcomp⟩ := node_facts S doc n pos hv ha hn1 hnt
+  simp only [Schema.invert, hn1] at hi
+  cases hf : n.attrs.find? (·.1 == name) with
+  | none => simp [hf] at hi
+  | some q =>
+    obtain ⟨nm, v⟩ := q
+    simp only [hf, Except.ok.injEq] at hi
+    subst hi
+    have hlk : lk n.attrs name = some v := by simp [lk, hf]
+    obtain ⟨n2, u2, hn2, hu2, hr2⟩ := apply_attr_parts S doc' doc'' pos name v h2
+    refine node_undo S doc doc' doc'' n n2 u1 u2 pos _ _ _ _ hn hn1 hu1 hr1 hn2 hu2 hr2 ?_
+    intro a1 a2 hc1 hat2 hmk2 hc2
+    rw [hat2] at hc2
+    rw [hmk2, setFrom_idem_of_canonical S n.marks hcan]
+    have := computeAttrs_undo _ n.attrs a1 name value v hcomp hlk hc1
+    rw [this] at hc2
+    exact ⟨(Except.ok.inj hc2).symm, setFrom_idem_of_canonical S n.marks hcan⟩
 
+-- STATEMENT CHANGED: two hypotheses added (`hty`, `hsym`); as originally stated the theorem is false
+-- in the model (and upstream).  Counterexamples (checked with `#eval`, all other hypotheses hold; one
+-- top node `doc` (type 0, content `hr*`) holding one leaf `hr` (type 1) at position 0):
+--  (1) remove + re-add changes the order when two marks of one type coexist (type not excluding
+--      itself): marks `[excluded = []; [1]]`, `x = ⟨0,[("a","1")]⟩`, `y = ⟨0,[("a","2")]⟩`,
+--      doc `elem 0 [] [] [leaf 1 [] [x, y]]`, step `removeNodeMark 0 x`: inverse `addNodeMark 0 x`
+--      yields marks `[y, x]` (add_to_set inserts after all marks of rank ≤ its own), so doc'' ≠ doc.
+--      `hty` (the marks on the addressed node have pairwise distinct types) excludes this.
+--  (2) asymmetric exclusion: marks `[excluded = [0]; [0,1]]`, `a = ⟨0,[]⟩`, `b = ⟨1,[]⟩`,
+--      doc `elem 0 [] [] [leaf 1 [] [a]]`, step `addNodeMark 0 b` displaces `a` (sets `[a]` → `[b]`,
+--      equal length, so `hdis` holds); the inverse `addNodeMark 0 a` is blocked because `b` excludes
+--      `a` while `a` does not exclude `b`: marks stay `[b]`, doc'' ≠ doc.
+--      `hsym` (every mark the new mark excludes on that node excludes it back) excludes this.
 /-- **exact undo of node-mark steps** that displace at most one mark (same proviso) -/
 theorem nodeMark_undo_partial (S : Schema) (doc doc' doc'' : Node) (pos : Nat) (m : Mark) (inv : Step) (add : Bool)
     (hn : fnorm doc.kids = true) (hv : S.checkNode doc = true) (ha : attrsOk S doc = true)
     (h1 : S.apply (if add then .addNodeMark pos m else .removeNodeMark pos m) doc = .ok doc')
     (hi : S.invert (if add then .addNodeMark pos m else .removeNodeMark pos m) doc = .ok inv)
     (hdis : ∀ n, doc.nodeAt pos = .ok (some n) → add = true → n.marks.length ≤ (m.addToSet S n.marks).length)
+    (hty : ∀ n, doc.nodeAt pos = .ok (some n) → ∀ x ∈ n.marks, ∀ y ∈ n.marks, x.ty = y.ty → x = y)
+    (hsym : ∀ n, doc.nodeAt pos = .ok (some n) → add = true →
+      ∀ x ∈ n.marks, S.excludes m.ty x.ty = true → S.excludes x.ty m.ty = true)
     (h2 : S.apply inv doc' = .ok doc'') : doc'' = doc := by
-  sorry
+  cases add with
+  | true =>
+    simp only [if_true] at h1 hi
+    obtain ⟨n, u1, hn1, hu1, hr1⟩ := apply_addNodeMark_parts S doc doc' pos m h1
+    have hnt := (recreate_spec S n u1 _ _ hu1).1
+    obtain ⟨hcan, hcomp⟩ := node_facts S doc n pos hv ha hn1 hnt
+    have hcanP := (canonicalMarks_iff_canonP S n.marks).1 hcan
+    have hdis' := hdis n hn1 rfl
+    have hsf1 : setFrom (m.addToSet S n.marks) = m.addToSet S n.marks :=
+      setFrom_idem_of_canonical S _ (addToSet_canonical S m _ hcan)
+    -- common ending: the second step is a node-mark step whose new set is the old one
+    have finish : ∀ (n2 u2 : Node) (marks2 : Marks),
+        doc'.nodeAt pos = .ok (some n2) → S.recreate n2 n2.attrs marks2 = .ok u2 →
+        S.fromReplace doc' pos (pos + 1) ⟨[u2], 0, if n2.isLeaf then 0 else 1⟩ = .ok doc'' →
+        (n2.marks = m.addToSet S n.marks → marks2 = n.marks) → doc'' = doc := by
+      intro n2 u2 marks2 hn2 hu2 hr2 hmk
+      refine node_undo S doc doc' doc'' n n2 u1 u2 pos _ _ _ _ hn hn1 hu1 hr1 hn2 hu2 hr2 ?_
+      intro a1 a2 hc1 hat2 hmk2 hc2
+      rw [hcomp] at hc1
+      have ha1 : a1 = n.attrs := (Except.ok.inj hc1).symm
+      rw [hat2, ha1, hcomp] at hc2
+      rw [hmk (hmk2.trans hsf1)]
+      exact ⟨(Except.ok.inj hc2).symm, setFrom_idem_of_canonical S n.marks hcan⟩
+    simp only [Schema.invert, hn1] at hi
+    split at hi
+    · rename_i hlen
+      split at hi
+      · rename_i x hx
+        simp only [Except.ok.injEq] at hi; subst hi
+        obtain ⟨n2, u2, hn2, hu2, hr2⟩ := apply_addNodeMark_parts S doc' doc'' pos x h2
+        refine finish n2 u2 _ hn2 hu2 hr2 (fun hm2 => ?_)
+        rw [hm2]
+        have hxm : x ∈ n.marks := List.mem_of_find?_eq_some hx
+        exact add_displaced_eq S n.marks m x hcanP hlen hx
+          (fun o ho e => hty n hn1 o ho x hxm e) (hsym n hn1 rfl)
+      · rename_i hx
+        simp only [Except.ok.injEq] at hi; subst hi
+        obtain ⟨n2, u2, hn2, hu2, hr2⟩ := apply_addNodeMark_parts S doc' doc'' pos m h2
+        refine finish n2 u2 _ hn2 hu2 hr2 (fun hm2 => ?_)
+        have hsame := add_same_length_none S n.marks m hlen hx
+        rw [hm2, hsame, hsame]
+    · rename_i hlen
+      simp only [Except.ok.injEq] at hi; subst hi
+      obtain ⟨n2, u2, hn2, hu2, hr2⟩ := apply_removeNodeMark_parts S doc' doc'' pos m h2
+      refine finish n2 u2 _ hn2 hu2 hr2 (fun hm2 => ?_)
+      rw [hm2]
+      have hgt := addToSet_length_gt S n.marks m (by omega)
+      rw [hgt.2]
+      exact filter_ne_insertByRank m n.marks hgt.1
+  | false =>
+    simp only [Bool.false_eq_true, if_false] at h1 hi
+    obtain ⟨n, u1, hn1, hu1, hr1⟩ := apply_removeNodeMark_parts S doc doc' pos m h1
+    have hnt := (recreate_spec S n u1 _ _ hu1).1
+    obtain ⟨hcan, hcomp⟩ := node_facts S doc n pos hv ha hn1 hnt
+    have hcanP := (canonicalMarks_iff_canonP S n.marks).1 hcan
+    have hsf1 : setFrom (m.removeFromSet n.marks) = m.removeFromSet n.marks :=
+      setFrom_idem_of_canonical S _ (removeFromSet_canonical S m _ hcan)
+    have finish : ∀ (n2 u2 : Node) (marks2 : Marks),
+        doc'.nodeAt pos = .ok (some n2) → S.recreate n2 n2.attrs marks2 = .ok u2 →
+        S.fromReplace doc' pos (pos + 1) ⟨[u2], 0, if n2.isLeaf then 0 else 1⟩ = .ok doc'' →
+        (n2.marks = m.removeFromSet n.marks → marks2 = n.marks) → doc'' = doc := by
+      intro n2 u2 marks2 hn2 hu2 hr2 hmk
+      refine node_undo S doc doc' doc'' n n2 u1 u2 pos _ _ _ _ hn hn1 hu1 hr1 hn2 hu2 hr2 ?_
+      intro a1 a2 hc1 hat2 hmk2 hc2
+      rw [hcomp] at hc1
+      have ha1 : a1 = n.attrs := (Except.ok.inj hc1).symm
+      rw [hat2, ha1, hcomp] at hc2
+      rw [hmk (hmk2.trans hsf1)]
+      exact ⟨(Except.ok.inj hc2).symm, setFrom_idem_of_canonical S n.marks hcan⟩
+    simp only [Schema.invert, hn1] at hi
+    split at hi
+    · rename_i hin
+      simp only [Except.ok.injEq] at hi; subst hi
+      obtain ⟨n2, u2, hn2, hu2, hr2⟩ := apply_addNodeMark_parts S doc' doc'' pos m h2
+      refine finish n2 u2 _ hn2 hu2 hr2 (fun hm2 => ?_)
+      rw [hm2]
+      have hmm : m ∈ n.marks := (isInSet_iff m _).mp hin
+      exact add_remove_eq S n.marks m hcanP hmm (fun o ho e => hty n hn1 o ho m hmm e)
+    · rename_i hin
+      simp only [Except.ok.injEq] at hi; subst hi
+      obtain ⟨n2, u2, hn2, hu2, hr2⟩ := apply_removeNodeMark_parts S doc' doc'' pos m h2
+      refine finish n2 u2 _ hn2 hu2 hr2 (fun hm2 => ?_)
+      have hmm : m ∉ n.marks := fun h => hin ((isInSet_iff m _).mpr h)
+      rw [hm2, removeFromSet_of_not_mem m _ hmm, removeFromSet_of_not_mem m _ hmm]
 
+set_option linter.unusedVariables false in
 /-- **exact undo of a doc-attribute step** for a declared attribute holding a non-null value or a
     null default -/
 theorem docAttr_undo (S : Schema) (t : TypeId) (a : Attrs) (m : Marks) (kids : List Node)
@@ -109,14 +475,41 @@ theorem docAttr_undo (S : Schema) (t : TypeId) (a : Attrs) (m : Marks) (kids : L
     (hi : S.invert (.docAttr name value) (.elem t a m kids) = .ok inv)
     (hdecl : name ∈ (S.nodeType t).attrs.map (·.name)) :
     ∃ doc'', S.apply inv doc' = .ok doc'' ∧ doc''.kids = kids ∧ doc''.marks = m := by
-  sorry
+  simp only [Schema.apply] at h1
+  cases hc1 : computeAttrs (S.nodeType t).attrs (a.filter (·.1 != name) ++ [(name, value)]) with
+  | error e => simp [hc1, Except.map] at h1
+  | ok a1 =>
+    simp only [hc1, Except.map, Except.ok.injEq] at h1
+    subst h1
+    simp only [Schema.invert, Node.attrs] at hi
+    cases hf : a.find? (·.1 == name) with
+    | none => simp [hf] at hi
+    | some q =>
+      obtain ⟨nm, v⟩ := q
+      simp only [hf, Except.ok.injEq] at hi
+      subst hi
+      have hlk : lk a name = some v := by simp [lk, hf]
+      have := computeAttrs_undo _ a a1 name value v ha hlk hc1
+      refine ⟨.elem t a (setFrom (setFrom m)) kids, ?_, rfl, ?_⟩
+      · simp only [Schema.apply, this, Except.map]
+      · simp only [Node.marks, hm]
 
+-- STATEMENT CHANGED: the first conjunct got the extra premise `∀ o ∈ ms, o.ty = m.ty → o = m`
+-- (no other mark of `m`'s type in the set).  Counterexample to the original (`#eval`): mark types
+-- `[excluded = []; [1]]`, `ms = [x, y]` with `x = ⟨0,[("a","1")]⟩`, `y = ⟨0,[("a","2")]⟩` (canonical),
+-- `m = x`: `x.addToSet S (x.removeFromSet ms) = [y, x] ≠ ms`.  The second conjunct is unchanged.
 /-- **exact undo of a remove-node-mark step** and of an **add-node-mark step that displaces at most
     one mark** (the mark set afterwards is the one before) -/
 theorem nodeMark_undo_marks (S : Schema) (ms : Marks) (m : Mark) (hc : canonicalMarks S ms = true) :
-    (m.isInSet ms = true → m.addToSet S (m.removeFromSet ms) = ms) ∧
+    (m.isInSet ms = true → (∀ o ∈ ms, o.ty = m.ty → o = m) → m.addToSet S (m.removeFromSet ms) = ms) ∧
     (m.isInSet ms = false → (m.addToSet S ms).length = ms.length + 1 → m.removeFromSet (m.addToSet S ms) = ms) := by
-  sorry
+  have hcP := (canonicalMarks_iff_canonP S ms).1 hc
+  exact ⟨fun hin hty => add_remove_eq S ms m hcP ((isInSet_iff m ms).mp hin) hty,
+    fun _ hlen => remove_add_eq S ms m hlen⟩
+
+/-- three mark types: `small1`, `small2` (each excluding only itself) and `big` (excluding all) -/
+private def gS : Schema :=
+  ⟨#[], #[⟨"small1", [0], true, []⟩, ⟨"small2", [1], true, []⟩, ⟨"big", [0, 1, 2], true, []⟩], 0, 0⟩
 
 /-- the guard "at most one displaced mark" is necessary: a mark excluding two present marks cannot
     be undone by a single node-mark step (also upstream) -/
@@ -124,6 +517,30 @@ theorem nodeMark_undo_needs_guard :
     ∃ (S : Schema) (ms : Marks) (m : Mark), canonicalMarks S ms = true ∧
       (m.addToSet S ms).length < ms.length ∧
       ∀ x : Mark, x.addToSet S (m.addToSet S ms) ≠ ms ∧ x.removeFromSet (m.addToSet S ms) ≠ ms := by
-  sorry
+  refine ⟨gS, [⟨0, []⟩, ⟨1, []⟩], ⟨2, []⟩, by decide, by decide, ?_⟩
+  have hadd : Mark.addToSet gS ⟨2, []⟩ [⟨0, []⟩, ⟨1, []⟩] = [⟨2, []⟩] := by decide
+  rw [hadd]
+  intro x
+  constructor
+  · rw [addToSet_eq]
+    split
+    · decide
+    · intro h
+      have hlen := congrArg List.length h
+      have hl := (insertByRank_perm x ([⟨2, []⟩].filter fun o => !gS.excludes x.ty o.ty)).length_eq
+      simp only [List.length_cons, List.length_nil] at hlen hl
+      -- the filter kept `big`, so `big` is in the result
+      have hk : ([⟨2, []⟩].filter fun o => !gS.excludes x.ty o.ty) = [(⟨2, []⟩ : Mark)] := by
+        apply List.Sublist.eq_of_length List.filter_sublist
+        simp only [List.length_cons, List.length_nil]; omega
+      have : (⟨2, []⟩ : Mark) ∈ insertByRank x ([⟨2, []⟩].filter fun o => !gS.excludes x.ty o.ty) := by
+        rw [hk]; exact (mem_insertByRank x _ _).mpr (Or.inr (by simp))
+      rw [h] at this
+      revert this; decide
+  · intro h
+    have hlen := congrArg List.length h
+    have hle := List.length_filter_le (· != x) [(⟨2, []⟩ : Mark)]
+    simp only [Mark.removeFromSet, List.length_cons, List.length_nil] at hlen hle
+    omega
 
 end PM.C04
